@@ -76,17 +76,23 @@ def layout(ctx, name, shape, lay, **kw):
     raise ValueError(lay)
 
 
+_CTX = [None]
+
+
 def quiet(f):
     """run an operation; what it returns or whether it is supported is not this property's business"""
     try:
         return f()
     except SIGNALS:
         raise
-    except Exception:  # noqa: BLE001
+    except Exception as e:  # noqa: BLE001
+        if _CTX[0] is not None and getattr(_CTX[0], "symbolic", False):
+            _CTX[0].eng.resurface(e)  # an engine signal wrapped by the TorchScript interpreter
         return None
 
 
 def harness(ctx):
+    _CTX[0] = ctx
     p = ctx.params
     g, lay, n = p["group"], p["layout"], p["n"]
     batch = tuple(p["batch"])
